@@ -237,6 +237,7 @@ fn key_histories(m: &mut Monitor, cfg: &Config) {
         let mut worst_entry: (f64, String) = (0.0, String::new());
         let mut nseq = 0u64;
         let mut ncmp = 0u64;
+        let mut ncmp_derived = 0u64;
         let mut run_seq = |seq: &[Req], use_clone: bool, rng: &mut Rng| {
             let s = if use_clone { pristine.clone() } else { sys.fresh().unwrap() };
             for (k, &r) in seq.iter().enumerate() {
@@ -318,6 +319,42 @@ fn key_histories(m: &mut Monitor, cfg: &Config) {
                 });
             }
         }
+        // a state derived from an evaluated one (update_temperature) must not inherit its history
+        {
+            let mut worst_d = (0.0f64, String::new());
+            for _ in 0..cfg.tier.pick(10, 30) {
+                let t2 = sys.ss.temperature() * rng.range(0.8, 1.25);
+                let fresh2 = |r: Req| State::new_nvt(&sys.eos, t2, sys.ss.volume(), &sys.ss.moles()).ok().map(|s| eval(&s, r));
+                let s = sys.fresh().unwrap();
+                let len = rng.below(6);
+                let seq: Vec<Req> = (0..len).map(|_| *rng.choose(&reqs)).collect();
+                for &r in &seq {
+                    eval(&s, r);
+                }
+                let Ok(d) = s.update_temperature(t2) else {
+                    continue;
+                };
+                for _ in 0..4 {
+                    let r = *rng.choose(&reqs);
+                    let (Some(c), v) = (fresh2(r), eval(&d, r)) else {
+                        continue;
+                    };
+                    let dv = dev(v, c, sys.scale(a0, r)) / sys.dilute(r);
+                    ncmp_derived += 1;
+                    if dv.is_nan() || dv > worst_d.0 {
+                        worst_d = (if dv.is_nan() { f64::INFINITY } else { dv }, format!("{r:?} = {v} on update_temperature(T x {:.4}) after {seq:?}; fresh state: {c}", (t2 / sys.ss.temperature()).into_value()));
+                    }
+                }
+                // ... and the source keeps its values
+                let r = *rng.choose(&reqs);
+                let dv = dev(eval(&s, r), canon[&r], sys.scale(a0, r)) / sys.dilute(r);
+                if dv.is_nan() || dv > worst_d.0 {
+                    worst_d = (if dv.is_nan() { f64::INFINITY } else { dv }, format!("source state changed by update_temperature: {r:?}"));
+                }
+            }
+            m.check("history:a state derived by update_temperature equals a fresh state", &format!("{}|update_temperature", sys.fam), case, worst_d.0, TOL, || json!({"info": info, "worst": worst_d.1}));
+        }
+        m.count("derived_state_values_compared", ncmp_derived);
         m.check("history:every cache entry equals its first-evaluation value", &format!("{}|entries", sys.fam), case, worst_entry.0, TOL, || json!({"info": info, "worst": worst_entry.1}));
     });
 }
